@@ -15,6 +15,40 @@ CHECKS = {
             "CPython marshal.loads (2.7, 3.6-3.13) is ground truth; 2.1-2.6 and 3.0-3.5 judged through the "
             "layout-identical 2.7 / 3.7 interpreters; refmarshal is self-checked against CPython on every case",
             "DESIGN.md §4 C10"),
+    "C01": ("Hypothesis grammar programs + sampled stdlib files compiled by 9 real CPythons; differential of the "
+            "canonical code tree against the producing interpreter's marshal.loads",
+            "No field/constant disagreement and exact payload consumption on generated programs and stdlib "
+            "samples for 2.7 and 3.6-3.13 (portable unmarshaller). Exploration.",
+            "producing CPython's marshal is ground truth; versions without an interpreter are covered by C10's "
+            "cousin-interpreter oracle and the corpus",
+            "DESIGN.md §4 C01"),
+    "C02": ("generated programs / stdlib samples; intrinsic tiling oracle + differential against each CPython's dis",
+            "Instruction streams of every code object of generated programs tile exactly and agree per offset "
+            "(opcode, name, folded operand) with the producing CPython's dis. Exploration.",
+            "CPython dis is ground truth; code objects above the size cap are skipped (quadratic iterator)",
+            "DESIGN.md §4 C02"),
+    "C03": ("generated programs biased to closures / comprehensions / >255 names; differential of argval against dis",
+            "Every table-indexed operand (const/name/local/free/compare) of generated programs resolves to the "
+            "value CPython's dis resolves. Exploration.",
+            "CPython dis argval is ground truth; comparison operators compared by cmp_op index",
+            "DESIGN.md §4 C03"),
+    "C04": ("generated programs with loops/generators/async/try; differential of jump argval, findlabels set and "
+            "is_jump_target against dis; structural oracle 'targets are instruction starts'",
+            "Jump targets, label sets and is_jump_target of generated programs agree with CPython "
+            "(definition: labels plus 3.11+ handler targets). Exploration.",
+            "CPython dis is ground truth; 2.7 labels from a ceval-faithful transcription",
+            "DESIGN.md §4 C04"),
+    "C05": ("generated programs with drawn line gaps (>=128, >=256, decreasing); differential of findlinestarts and "
+            "starts_line against dis.findlinestarts",
+            "Line starts of generated programs equal CPython's for lnotab (unsigned/signed), 3.10 and 3.11+ "
+            "tables. Exploration.",
+            "CPython dis.findlinestarts is ground truth",
+            "DESIGN.md §4 C05"),
+    "C17": ("generated 3.11-3.13 programs; differential of exception entries, co_positions and co_lines per code unit",
+            "Exception-table entries, per-code-unit positions (co_positions and parse_positions) and lines agree "
+            "with CPython 3.11/3.12/3.13 on generated programs. Exploration.",
+            "co_positions()/co_lines()/dis._parse_exception_table are ground truth",
+            "DESIGN.md §4 C17"),
 }
 
 NOT_YET = {}
